@@ -64,6 +64,30 @@ TauFullAfter(a, L, NC, NW, j, i) ==
 TauFull(a, L, NC, NW, j) == TauFullAfter(a, L, NC, NW, j, NC)
 BrokeOut(a, L, NC, NW, j) == TauLayer(a, L, NC, NW, j) # TauFull(a, L, NC, NW, j)
 
+\* ------------------------------------------------------------ correlated-k
+\* A molecular absorber served from k-tables (opacity_method = ktables) has one coefficient per
+\* quadrature point g: kk[g][k][w] (coefficient x number density in layer k), weight wts[g]/WD with
+\* sum_g wts[g] = WD.  The documented transmittance of the ray tangent in layer j is
+\*      sum_g wts[g]/WD * 2^-tauG(g),   tauG(g) = sum_k kk[g][k][w] * L[j][k-j+1],
+\* whatever the magnitude of tauG: a quadrature point that is opaque beyond the floating-point range
+\* contributes (a value indistinguishable from) zero, never "nothing".  Exact value for tauG <= KCap;
+\* beyond KCap the term lies in [0, wts[g]/WD * 2^-KCap], which gives the two bounds KTransLo <= T <= KTransHi
+\* (equal whenever every quadrature point is at most KCap).
+KCap == 8
+Underflow == 1075        \* 2^-t is exactly 0 in binary64 arithmetic for t >= 1075
+KTauG(kk, L, g, j, w) == SumK(kk, L, g, j, w, j)
+RECURSIVE KNum(_, _, _, _, _, _, _)
+KNum(kk, L, wts, j, w, g, upper) ==
+    IF g = 0 THEN 0
+    ELSE LET t == KTauG(kk, L, g, j, w)
+             term == IF t <= KCap THEN wts[g] * Pow(2, KCap - t) ELSE (IF upper THEN wts[g] ELSE 0)
+         IN  term + KNum(kk, L, wts, j, w, g - 1, upper)
+KTransLo(kk, L, wts, WD, NG, j, w) == R(KNum(kk, L, wts, j, w, NG, FALSE), WD * Pow(2, KCap))
+KTransHi(kk, L, wts, WD, NG, j, w) == R(KNum(kk, L, wts, j, w, NG, TRUE), WD * Pow(2, KCap))
+\* bounds of 2^-t in the same convention
+TrLo(t) == IF t <= KCap THEN Pow2Neg(t) ELSE RZero
+TrHi(t) == IF t <= KCap THEN Pow2Neg(t) ELSE Pow2Neg(KCap)
+
 \* ------------------------------------------------------------------- depth
 \* transmittance 2^-t, exact for t <= 20, bounded above by 2^-20 beyond (only used in bounds)
 Tr(t) == IF t > 20 THEN Pow2Neg(20) ELSE Pow2Neg(t)
